@@ -37,6 +37,7 @@ macro_rules! dispatch {
             "C08" => driver::$f(scenarios::c08::C08, $($arg),*),
             "C16" => driver::$f(scenarios::c16::C16, $($arg),*),
             "C14" => driver::$f(scenarios::c14::C14, $($arg),*),
+            "C11" => driver::$f(scenarios::c11::C11, $($arg),*),
             other => {
                 eprintln!("HARNESS-ERROR unknown property {other}");
                 2
@@ -114,6 +115,26 @@ fn main() {
                 .unwrap_or_default();
             let _ = std::fs::create_dir_all(format!("/dev/shm/nsim-{}", std::process::id()));
             let c = dispatch!(prop.as_str(), replay, path, quiet);
+            let _ = std::fs::remove_dir_all(format!("/dev/shm/nsim-{}", std::process::id()));
+            c
+        },
+        // hidden: self-test of a scenario's own checker / model
+        "selftest" if args[2] == "C11" && args.len() >= 5 => {
+            println!("{}", scenarios::c11::dump_case(args[3].parse().unwrap_or(0), args[4].parse().unwrap_or(0)));
+            0
+        },
+        "selftest" if args[2] == "C11" => {
+            let _ = std::fs::create_dir_all(format!("/dev/shm/nsim-{}", std::process::id()));
+            let c = match scenarios::c11::selftest() {
+                Ok(r) => {
+                    print!("{r}");
+                    0
+                },
+                Err(e) => {
+                    eprintln!("SELFTEST-FAILED {e}");
+                    2
+                },
+            };
             let _ = std::fs::remove_dir_all(format!("/dev/shm/nsim-{}", std::process::id()));
             c
         },
